@@ -256,7 +256,7 @@ def load(model, path, nit, workdir):
                     ureg.load_definitions(block)
                     block = None
                 continue
-            if s.startswith("@"):
+            if s.startswith("@") and not s.startswith("@alias"):
                 block = [ln]
                 continue
             ureg.define(s)
@@ -273,6 +273,15 @@ def battery(ureg, model, nit, path):
         st_, n = attempt(ureg.get_name, s)
         if st_ == "err" or n != canon:
             raise Violation("spelling_not_as_written", f"[{path}/{nit}] get_name({s!r}) = {n!r}, written {canon!r}")
+    # every spelling is also in the case-insensitive table (asked per call), unless two spellings only differ by case
+    lower = {}
+    for s, canon in sp.items():
+        lower.setdefault(s.lower(), set()).add(canon)
+    for s, canon in sp.items():
+        if len(lower[s.lower()]) == 1 and s.upper() != s and s.upper() not in sp and not any(s.upper().startswith(p_["name"].upper()) or (p_["symbol"] and s.upper().startswith(p_["symbol"].upper())) for p_ in model["prefixes"]):
+            st_, n = attempt(ureg.get_name, s.upper(), case_sensitive=False)
+            if st_ == "err" or n != canon:
+                raise Violation("spelling_not_in_case_insensitive_table", f"[{path}/{nit}] get_name({s.upper()!r}, case_sensitive=False) = {n!r}, written {canon!r} (as {s!r})")
     for name, (f, vec) in res.items():
         st_, r = attempt(ureg.get_root_units, name)
         if st_ == "err":
